@@ -224,6 +224,28 @@ theorem wrap_gmrf_single_draw_counterexample :
     sampleShape .gmrfNeumann false 5 1 = .array 25 ∧ sampleShape .gmrfPeriodic false 5 1 = .array 25
     ∧ sampleShape .gmrfZero false 5 1 = .array 5 := by decide
 
+/-- **UserDefinedDistribution: one column per draw, in call order** — column `i` of the result is the value the
+`i`-th call of the user's sampling function returned (at the time it returned), component by component. -/
+theorem userDefined_column (dim N : ℕ) (calls : List QMat.Vec) (S : QMat.Mat)
+    (h : userDefinedSample dim N calls = some S) (i j : ℕ) (hj : j < dim) :
+    QMat.entry S j i = QMat.entry calls i j ∧ calls.length = N := by
+  unfold userDefinedSample at h
+  split_ifs at h with hc
+  simp only [Option.some.injEq] at h
+  subst h
+  push_neg at hc
+  refine ⟨?_, hc.1⟩
+  simp only [QMat.entry, QMat.transposeN, QMat.transposeAux]
+  have h1 : ((List.range dim).map (fun j => calls.map (fun r => r.getD j 0))).getD j [] = calls.map (fun r => r.getD j 0) := by
+    rw [List.getD_eq_getElem?_getD, List.getElem?_map, List.getElem?_range hj]
+    rfl
+  rw [h1, List.getD_eq_getElem?_getD, List.getElem?_map]
+  cases hi : calls[i]? with
+  | none => simp [List.getD_eq_getElem?_getD, hi]
+  | some r => simp [List.getD_eq_getElem?_getD, hi]
+
+example : userDefinedSample 2 3 [[1, 2], [3, 4], [5, 6]] = some [[1, 3, 5], [2, 4, 6]] := by decide +kernel
+
 /-! ### plumbing -/
 
 /-- **The generator receives the tuple the density uses**: for the laws whose density is delegated to
